@@ -142,7 +142,7 @@ theorem line_shape {Lx Ly : Nat} (hx : 1 ≤ Lx) (hy : 1 ≤ Ly) {K : List Coord
     ∃ a b, q = [a, b] ∧ IsQ Lx Ly a b := (mem_qubits hx hy).mp ((hK q).mp h).1
 
 /-- two lines meeting in exactly one qubit -/
-theorem cross_one {Lx Ly : Nat} (hx : 1 ≤ Lx) (hy : 1 ≤ Ly) (A B : List Coord) (hA : A.Nodup) (q0 : Coord)
+theorem cross_one {L : Nat} (hL : 1 ≤ L) (A B : List Coord) (hA : A.Nodup) (q0 : Coord)
     (h0 : q0 ∈ A) (h0' : q0 ∈ B) (hu : ∀ q ∈ A, q ∈ B → q = q0) : interCount A B = 1 := by
   unfold interCount
   apply countP_eq_one _ _ q0 hA h0
@@ -157,7 +157,7 @@ theorem cross_zero (A B : List Coord) (hu : ∀ q ∈ A, q ∈ B → False) : in
   exact hu a ha (by simpa using h)
 
 theorem k3_r5 {Lx Ly : Nat} (hx : 1 ≤ Lx) (hy : 1 ≤ Ly) : interCount (k3 Lx Ly) (r5 Lx Ly) = 1 := by
-  apply cross_one hx hy _ _ (nodup_k3 Lx Ly) [3, 5]
+  apply cross_one hx _ _ (nodup_k3 Lx Ly) [3, 5]
   · rw [mem_k3' hx hy]; unfold IsQ; omega
   · rw [mem_r5' hx hy]; unfold IsQ; omega
   · intro q hq hq'
@@ -169,7 +169,7 @@ theorem r5_k3 {Lx Ly : Nat} (hx : 1 ≤ Lx) (hy : 1 ≤ Ly) : interCount (r5 Lx 
   rw [interCount_comm _ _ (nodup_r5 Lx Ly) (nodup_k3 Lx Ly)]; exact k3_r5 hx hy
 
 theorem k7_r1 {Lx Ly : Nat} (hx : 1 ≤ Lx) (hy : 1 ≤ Ly) : interCount (k7 Lx Ly) (r1 Lx Ly) = 1 := by
-  apply cross_one hx hy _ _ (nodup_k7 Lx Ly) [7, 1]
+  apply cross_one hx _ _ (nodup_k7 Lx Ly) [7, 1]
   · rw [mem_k7' hx hy]; unfold IsQ; omega
   · rw [mem_r1' hx hy]; unfold IsQ; omega
   · intro q hq hq'
